@@ -252,6 +252,7 @@ func namedErrResult(g *Fn) *ast.Ident {
 }
 
 func runC03(c *Ctx) {
+	jflag, jdone := joinCompletionFlag(c)
 	advisoryBeforeRelease(c)
 	removeKeysCoverage(c, "handoff-removal")
 	kvKeys := func(m string) []string { return []string{"spec/chord.KVProvider." + m, "spec/chord.KV." + m} }
@@ -360,8 +361,8 @@ func runC03(c *Ctx) {
 			return true
 		}
 		isJoined := false
-		if v := rj.varOf(as.Lhs[0]); v != nil && v.Name() == "joined" && types.Identical(v.Type(), types.Typ[types.Bool]) {
-			if cv, _ := rj.ConstVal(as.Rhs[0]); cv == "true" {
+		if v := rj.varOf(as.Lhs[0]); v != nil && v == jflag {
+			if cv, ok := rj.ConstVal(as.Rhs[0]); ok && (cv == "true") == jdone {
 				isJoined = true
 			}
 		}
@@ -728,6 +729,7 @@ var allowedStateSites = map[string]string{
 }
 
 func runC06(c *Ctx) {
+	jflag, jdone := joinCompletionFlag(c)
 	sites := stateSites(c)
 	c.Floor("state transition sites in package chord", len(sites), 15)
 	retry := retryableSentinels(c)
@@ -748,7 +750,7 @@ func runC06(c *Ctx) {
 			inLit := s.g.Lit != nil
 			okJoined := inLit && fs.Cmp(func(e, tag ast.Expr, truth bool, fa *Fact) bool {
 				id, ok := e.(*ast.Ident)
-				return ok && !fa.Inherited && id.Name == "joined" && !truth
+				return ok && !fa.Inherited && jflag != nil && s.g.varOf(id) == jflag && truth != jdone
 			})
 			okCAS := inLit && fs.Has(func(fa *Fact) bool {
 				return fa.Inherited && fa.Kind == FTrue && s.fn.IsCall(fa.Call, "chord.nodeState.Transition") && constName(s.fn, fa.Call.Args[0]) == "Active" && constName(s.fn, fa.Call.Args[1]) == "Transferring"
@@ -793,7 +795,7 @@ func runC06(c *Ctx) {
 		fs := g.FactsAt(w.stmt)
 		ok := fs.Cmp(func(e, tag ast.Expr, truth bool, fa *Fact) bool {
 			id, ok := e.(*ast.Ident)
-			return ok && id.Name == "joined" && truth
+			return ok && jflag != nil && g.varOf(id) == jflag && truth == jdone
 		})
 		c.Ob("cas-cut", "RequestToJoin#predecessor<-joiner", w.stmt.Pos(), ok && g.Prov(w.stmt.Rhs[0]) == "param#0", "the joiner becomes predecessor only when the join completed (joined == true)")
 	}
@@ -828,7 +830,7 @@ func runC06(c *Ctx) {
 			return g.nodeHasCall(n, "chord.nodeState.Set") != nil
 		}, func(b *cfgBlock, si int) bool {
 			for _, at := range g.edgeAtoms(b, si) {
-				if id, ok := at.e.(*ast.Ident); ok && id.Name == "joined" && at.truth {
+				if id, ok := at.e.(*ast.Ident); ok && jflag != nil && g.varOf(id) == jflag && at.truth == jdone {
 					return true
 				}
 			}
@@ -1389,4 +1391,30 @@ func nodeStateSemantics(c *Ctx) {
 	}
 	_ = bad
 	c.Extra("nodestate_valuations", nEval)
+}
+
+// joinCompletionFlag finds the boolean local of RequestToJoin that records "the join
+// completed" by what is done with it, whatever it is called and whichever polarity it has:
+// it is assigned a boolean constant where transferKeysUpward is known to have succeeded.
+// done is that constant (`joined = true` -> true; `revert = false` -> false).
+func joinCompletionFlag(c *Ctx) (*types.Var, bool) {
+	rj := chordFn(c, "LocalNode", "RequestToJoin")
+	var flag *types.Var
+	done := false
+	for _, nd := range shallowNodes(rj.Body) {
+		as, ok := nd.(*ast.AssignStmt)
+		if !ok || len(as.Lhs) != 1 || len(as.Rhs) != 1 {
+			continue
+		}
+		v := rj.varOf(as.Lhs[0])
+		if v == nil || !types.Identical(v.Type(), types.Typ[types.Bool]) {
+			continue
+		}
+		cv, isConst := rj.ConstVal(as.Rhs[0])
+		if !isConst || !rj.FactsAt(as).CallOK("chord.LocalNode.transferKeysUpward") {
+			continue
+		}
+		flag, done = v, cv == "true"
+	}
+	return flag, done
 }
